@@ -98,6 +98,26 @@ def check(world, ob, timeout_ms=5000, depth=2, use_cvc5=True, cvc5_timeout_s=10,
             model_lines = model_to_text(model)
             break
     depth_used = depth
+    if res == 'refuted' and not quick_only:
+        # a counter-model at unfolding depth d may be an artefact of definitions not unfolded far enough (named / recursive spec
+        # functions are uninterpreted beyond d).  It is put to a deeper query: `unsat` there is a proof (axioms are only added), `sat`
+        # there replaces the model; `unknown` leaves the refutation as it is (the obligation held on the unchanged tree and now has a
+        # counter-model at the contract's own depth).
+        try:
+            ax_deep = world.close(base, depth=depth + 2)
+            s3 = z3.Solver()
+            for a in base:
+                s3.add(a)
+            for a in ax_deep:
+                s3.add(a)
+            r3 = timed_check(s3, timeout_ms)
+            if r3 == z3.unsat:
+                res, backend, model, model_lines = 'proved', f'z3-{z3.get_version_string()} (unfolding depth {depth + 2})', None, None
+            elif r3 == z3.sat:
+                model = s3.model()
+                model_lines = [f'(counter-model confirmed at unfolding depth {depth + 2})'] + model_to_text(model)
+        except Exception:
+            pass
     if res == 'unknown' and not quick_only and depth > 1:
         # fewer definitional axioms: a smaller query.  unsat there is still a proof (axioms are only dropped);
         # sat there is a counter-model of the assumptions posed at that depth (recorded as such).
@@ -142,8 +162,20 @@ def check(world, ob, timeout_ms=5000, depth=2, use_cvc5=True, cvc5_timeout_s=10,
                 model_lines = ['(model from cvc5 not extracted)']
         except Exception:
             pass
+    second = None
+    if res == 'proved' and backend and backend.startswith('z3') and os.environ.get('PYVC_SECOND_OPINION') == '1' and os.path.exists(CVC5) and depth_used == depth:
+        # thorough tier: every z3 `unsat` is put to cvc5 as well (A-smt).  Agreement or `unknown` is recorded; a `sat` from cvc5 on a
+        # query z3 called unsat means one of the solvers is wrong: the obligation is then not counted as discharged.
+        try:
+            second = run_cvc5(s.to_smt2(), 10)
+        except Exception:
+            second = 'unknown'
+        if second == 'sat':
+            res, backend = 'unknown', 'z3 says unsat, cvc5 says sat'
+        elif second not in ('unsat', 'unknown'):
+            second = 'not-parsed'        # z3 printed a solver-internal symbol cvc5 does not know
     return dict(result=res, backend=backend, time=round(time.time() - t0, 4), model=model_lines, z3model=model,
-                n_axioms=len(axioms))
+                n_axioms=len(axioms), second=second)
 
 
 def run_cvc5(smt2, timeout_s):
